@@ -114,25 +114,62 @@ class Model(object):
         self.repo = repo
         self.fi = repo.own_method('NodePathParser', 'parse')
         body = self.fi.node.body
-        loops = [s for s in body if isinstance(s, ast.While)]
+        loops = [s for s in body if isinstance(s, (ast.While, ast.For))]
         if len(loops) != 1:
-            raise AnalysisError('NodePathParser.parse: expected exactly one top-level while loop')
+            raise AnalysisError('NodePathParser.parse: expected exactly one top-level loop over the expression')
         loop = loops[0]
         i = body.index(loop)
         self.pre, self.post = body[:i], body[i + 1:]
         import re as _re
-        mt = _re.match(r'^self\.pos < len\((\w+)\)$', norm(loop.test))
-        mb = _re.match(r'^c = (\w+)\[self\.pos\]$', norm(loop.body[0])) if loop.body else None
-        if not mt or not mb or norm(loop.body[-1]) != 'self.pos += 1':
-            raise AnalysisError('NodePathParser.parse: the driver idiom `while self.pos < len(path_expr): c = path_expr[self.pos]; ...; self.pos += 1` '
-                                'is no longer recognisable')
-        self.bound_var, self.index_var = mt.group(1), mb.group(1)
-        self.body = loop.body[1:-1]
-        for n in ast.walk(ast.Module(body=self.body, type_ignores=[])):
-            if isinstance(n, (ast.Continue, ast.Break)):
-                raise AnalysisError('NodePathParser.parse: the loop body uses break/continue (the position increment could be skipped)')
-            if isinstance(n, ast.Attribute) and n.attr == 'pos' and isinstance(n.ctx, ast.Store):
-                raise AnalysisError('NodePathParser.parse: the loop body moves the position itself')
+        self.for_form = isinstance(loop, ast.For)
+        if self.for_form:
+            # `for c in X:` / `for pos, c in enumerate(X):` - the loop itself guarantees that every character of X is visited once
+            it_text, tgt = norm(loop.iter), loop.target
+            m1 = _re.match(r'^enumerate\((\w+)\)$', it_text)
+            if m1 and isinstance(tgt, ast.Tuple) and len(tgt.elts) == 2 and all(isinstance(e, ast.Name) for e in tgt.elts):
+                self.bound_var = self.index_var = m1.group(1)
+                self.pos_name, self.char_name = tgt.elts[0].id, tgt.elts[1].id
+            elif _re.match(r'^\w+$', it_text) and isinstance(tgt, ast.Name):
+                self.bound_var = self.index_var = it_text
+                self.pos_name, self.char_name = None, tgt.id
+            else:
+                raise AnalysisError('NodePathParser.parse: the loop `for %s in %s` is not a walk over the characters of the expression' % (norm(tgt), it_text))
+            if self.char_name != 'c':
+                raise AnalysisError('NodePathParser.parse: the current character is called %r (the model binds `c`)' % self.char_name)
+            if loop.orelse:
+                raise AnalysisError('NodePathParser.parse: for/else in the driver loop')
+            self.body = list(loop.body)
+            for n in ast.walk(ast.Module(body=self.body, type_ignores=[])):
+                if isinstance(n, ast.Break):
+                    raise AnalysisError('NodePathParser.parse: the loop body uses break (the rest of the expression would not be scanned)')
+                if isinstance(n, ast.Assign) and any(isinstance(t, ast.Attribute) and t.attr == 'pos' for t in n.targets):
+                    if not (isinstance(n.value, ast.Name) and n.value.id == self.pos_name):
+                        raise AnalysisError('NodePathParser.parse: the loop body moves the position itself')
+                if isinstance(n, ast.AugAssign) and isinstance(n.target, ast.Attribute) and n.target.attr == 'pos':
+                    raise AnalysisError('NodePathParser.parse: the loop body moves the position itself')
+        else:
+            mt = _re.match(r'^self\.pos < len\((\w+)\)$', norm(loop.test))
+            mb = _re.match(r'^c = (\w+)\[self\.pos\]$', norm(loop.body[0])) if loop.body else None
+            if not mt or not mb or norm(loop.body[-1]) != 'self.pos += 1':
+                raise AnalysisError('NodePathParser.parse: the driver idiom `while self.pos < len(path_expr): c = path_expr[self.pos]; ...; self.pos += 1` '
+                                    'is no longer recognisable')
+            self.bound_var, self.index_var = mt.group(1), mb.group(1)
+            self.pos_name = None
+            self.body = loop.body[1:-1]
+            for n in ast.walk(ast.Module(body=self.body, type_ignores=[])):
+                if isinstance(n, (ast.Continue, ast.Break)):
+                    raise AnalysisError('NodePathParser.parse: the loop body uses break/continue (the position increment could be skipped)')
+                if isinstance(n, ast.Attribute) and n.attr == 'pos' and isinstance(n.ctx, ast.Store):
+                    raise AnalysisError('NodePathParser.parse: the loop body moves the position itself')
+        # the abstraction covers exactly these attributes of the parser object; a parser that keeps its progress anywhere else
+        # (a renamed or additional attribute) is outside the model: fail closed instead of exploring with unknown values
+        modelled = {'current_state', 'current_token', 'current_slice_elements', 'pos', 'current_id', 'current_separator', 'node_path', 'bare_id_matches_all'}
+        from sa.model import effects as _eff
+        written = set()
+        for m in repo.cls('NodePathParser').methods.values():
+            written |= _eff(m).written('self')
+        if written - modelled:
+            raise AnalysisError('NodePathParser keeps state in attribute(s) %s, which the token / state abstraction of the model does not cover' % sorted(written - modelled))
         self.it = ParserInterp(repo, 'NodePathParser')
 
     def char_sets(self):
@@ -178,8 +215,14 @@ class Model(object):
         def frame():
             f = Frame(self.fi, self.fi.module, 'NodePathParser', 0)
             f.locals.update({'self': state_obj(key), 'c': ch, 'path_expr': Top('input')})
+            if getattr(self, 'pos_name', None):
+                f.locals[self.pos_name] = Top('int')
             return f
-        return self.it.run_paths(self.body, frame, 'parse:body')
+        res = self.it.run_paths(self.body, frame, 'parse:body')
+        for r in res:
+            if r.outcome == 'continue' and getattr(self, 'for_form', False):
+                r.outcome = 'fallthrough'       # `continue` in a for loop over the characters: on to the next character
+        return res
 
     def finish(self, key):
         def frame():
